@@ -121,7 +121,12 @@ func (g *schemaGen) column(name string) *schema.Column {
 			c.SetDefault(&schema.Literal{V: g.lit(g.text())})
 			if d == "sqlite" && g.r.Chance(1, 3) {
 				// the double-quoted form the SQLite inspector keeps for DEFAULT "..."; the planner re-quotes it
-				c.SetDefault(&schema.Literal{V: strconv.Quote(g.text())})
+				txt := g.text()
+				if g.r.Chance(1, 2) {
+					// apostrophes in every arrangement: single, already doubled, both
+					txt = hx.Pick(g.r, []string{"it's", "say ''hi''; it's --", "a''b'c", "''", "'", "x'); DROP TABLE t; --", "two '' and one ' (paren"})
+				}
+				c.SetDefault(&schema.Literal{V: strconv.Quote(txt)})
 			}
 		}
 	case 4:
